@@ -1163,6 +1163,36 @@ impl AsyncWrite for ClientEndpoint {
         Poll::Ready(Ok(n))
     }
 
+    // The library as it stands writes with `write_all`; a change that gathers its buffers
+    // (`write_vectored`, `write_all_buf` on a chain) meets a transport that either supports
+    // that natively — the slices are one contiguous offer and a short count can end anywhere —
+    // or falls back to the first non-empty slice (tokio's default).
+    fn poll_write_vectored(
+        self: Pin<&mut Self>,
+        cx: &mut Context<'_>,
+        bufs: &[io::IoSlice<'_>],
+    ) -> Poll<io::Result<usize>> {
+        let native = {
+            let w = self.world.lock().unwrap_or_else(|e| e.into_inner());
+            w.plan.net.vectored
+        };
+        if native {
+            let mut all = Vec::new();
+            for b in bufs {
+                all.extend_from_slice(b);
+            }
+            self.poll_write(cx, &all)
+        } else {
+            let first = bufs.iter().find(|b| !b.is_empty()).map(|b| &**b).unwrap_or(&[]);
+            self.poll_write(cx, first)
+        }
+    }
+
+    fn is_write_vectored(&self) -> bool {
+        let w = self.world.lock().unwrap_or_else(|e| e.into_inner());
+        w.plan.net.vectored
+    }
+
     // The library as it stands neither flushes nor shuts the transport down. A change that
     // does meets what a broken socket or a TLS layer gives it: once the write side has failed,
     // flushing and shutting down fail too (with the same kind).
